@@ -373,5 +373,5 @@ pub fn run(ctx: &Ctx, rep: &mut Report, replay: Option<&serde_json::Value>) {
     if rep.violated() {
         return;
     }
-    run_prop(ctx, rep, "sched", ctx.tier.pick(10_000, 150_000), case_strategy(), |c, i| prop_sched(&world, c, i));
+    run_prop(ctx, rep, "sched", ctx.tier.pick(6_000, 150_000), case_strategy(), |c, i| prop_sched(&world, c, i));
 }
